@@ -39,6 +39,8 @@ def plan(tier, seed):
 
 
 def rand_value(rng, fmt):
+    if len(fmt) > 1 and fmt.endswith("x") and len(fmt.rstrip("x")) == 1:
+        return rand_value(rng, fmt.rstrip("x"))   # one value, then padding
     if fmt == "x":
         # a decimal with five fractional digits, either sign
         return rng.choice([1, -1]) * rng.randint(0, 10 ** 10) / 100000
@@ -57,6 +59,8 @@ def rand_value(rng, fmt):
 
 
 def same(fmt, a, b):
+    if len(fmt) > 1 and fmt.endswith("x") and len(fmt.rstrip("x")) == 1:
+        return type(a) is type(b) and a == b
     if fmt == "x":
         return round(a * 100000) == round(b * 100000)
     if len(fmt) == 2 and fmt[0] in "<>=!":
